@@ -29,8 +29,9 @@ func init() {
 			{Name: "swap query operands", File: "proxy/http_proxy.go", Old: "targetURL.RawQuery = t.URL.RawQuery + \"&\" + r.URL.RawQuery", New: "targetURL.RawQuery = r.URL.RawQuery + \"&\" + t.URL.RawQuery", Expect: "C07.Q1"},
 			{Name: "responseWriter.Write forwards a shorter slice", File: "proxy/http_proxy.go", Old: "\tn, err := rw.w.Write(b)\n", New: "\tn, err := rw.w.Write(b[:len(b)/2])\n", Expect: "C07.W1"},
 			{Name: "responseWriter changes the status", File: "proxy/http_proxy.go", Old: "\trw.w.WriteHeader(statusCode)\n", New: "\tif statusCode == 404 {\n\t\tstatusCode = 200\n\t}\n\trw.w.WriteHeader(statusCode)\n", Expect: "C07.W1"},
+			{Name: "only the first WriteHeader is forwarded", File: "proxy/http_proxy.go", Old: "func (rw *responseWriter) WriteHeader(statusCode int) {\n", New: "func (rw *responseWriter) WriteHeader(statusCode int) {\n\tif rw.code != 0 {\n\t\treturn\n\t}\n", Expect: "C07.W1"},
 			{Name: "body replaced", File: "proxy/http_proxy.go", Old: "\t//Add OpenTrace Headers to response\n", New: "\tr.Body = http.NoBody\n\t//Add OpenTrace Headers to response\n", Expect: "C07.H1"},
-			{Name: "benign: reorder independent statements", File: "proxy/http_proxy.go", Old: "\tupgrade, accept := r.Header.Get(\"Upgrade\"), r.Header.Get(\"Accept\")\n\n\ttr := p.Transport", New: "\ttr := p.Transport\n\tupgrade, accept := r.Header.Get(\"Upgrade\"), r.Header.Get(\"Accept\")\n", Expect: ""},
+			{Name: "benign: reorder independent statements", File: "proxy/http_proxy.go", Old: "\taccept := r.Header.Get(\"Accept\")\n\n\ttr := p.Transport", New: "\ttr := p.Transport\n\taccept := r.Header.Get(\"Accept\")\n", Expect: ""},
 		},
 	})
 }
@@ -569,8 +570,11 @@ func runC07W1(c *Ctx) {
 						})
 					}
 				})
+				if fwd && !forwardsOnEveryPath(f, mn, func(v ssa.Value) bool { _, ok := fieldOf(v, name, inner); return ok }) {
+					fwd = false
+				}
 				c.check("C07.W1", "(*"+name+")."+mn+"|forwards unchanged to the wrapped writer", f.Pos(), fwd,
-					"a response-writer wrapper must pass "+mn+"'s arguments to the wrapped writer exactly as received and return its results: the client must get the upstream's status, headers and bytes unchanged")
+					"a response-writer wrapper must pass "+mn+"'s arguments to the wrapped writer exactly as received, on every path, and return its results: the client must get the upstream's status, headers and bytes unchanged (httputil.ReverseProxy calls WriteHeader once per 1xx response and again for the final status — a wrapper that forwards only the first call turns the final status into 200)")
 			}
 		}
 	}
